@@ -23,7 +23,7 @@ MANIFEST = {
             "per-struct correspondence). NFC/UTF-8 are section parameters in the theorems (is_nfc (nfc_norm s), is_nfc s -> "
             "nfc_norm s = s); the evaluated model decides NFC only for code points < U+0300 plus a table and skips other strings.",
 }
-IMPORTS = "From LE Require Import Codec.Varint Codec.Reader Codec.Writer Codec.Str Codec.Schema Gen.Schemas Corr.C08."
+IMPORTS = "From LE Require Import Codec.Varint Codec.Reader Codec.Writer Codec.Str Codec.Schema Codec.Lisk32 Gen.Schemas Corr.C08."
 TRANSLATOR = os.path.join(core.ROOT, "translate", "schemas", "main.go")
 GEN_V = os.path.join(core.COQ, "Gen", "Schemas.v")
 GEN_REG = os.path.join(core.HARNESS, "internal", "c08reg", "reg_gen.go")
@@ -80,14 +80,50 @@ def struct_term(r):
         r.get("st2", 0), opt(re2, re), r.get("sst2", 0), opt(r.get("sre2", ""), re2))
 
 
+def l32_term(r):
+    return "(%s, %s, %d, %d, %s, %d, %s, %s)" % (cbool(r["b2t"]), hexl(r["in"]), r["st"], r["ec"], hexl(r["out"]), r["bst"],
+                                                 hexl(r["back"]), cbool(r["gen"] == "corrupt1"))
+
+
 KINDS = {
     "r": ("read_case", "check_read", read_term, "Reader primitive"),
     "w": ("write_case", "check_write", write_term, "Writer primitive"),
     "s": ("struct_case", "check_struct", struct_term, "generated struct codec"),
+    "l32": ("l32_case", "check_l32", l32_term, "Lisk32 conversion"),
 }
+
+SHARD = {"r": 1500, "w": 300, "s": 150, "l32": 100}
 
 OPNAMES = ["UInt", "UInt32", "UInts", "UInt32s", "Int", "Int32", "Ints", "Bool", "Bools", "Bytes", "BytesArray", "String",
            "Strings", "Int32s"]
+
+
+def check_ids(ck, recs):
+    """IDs: NewTransaction accepts only canonical bytes, so ID = SHA-256 of exactly the accepted bytes; header / block IDs are
+    the hash of the re-encoding and do not change when that re-encoding is decoded and encoded again (store/load)."""
+    import hashlib
+    for r in recs:
+        if r["k"] != "id":
+            continue
+        ck.count()
+        ck.nontrivial(("id", r["kind"], r["gen"], r["st"], r["d"][:24], len(r["d"])))
+        bad = None
+        if r["st"] in (2, 3):
+            bad = "panics/times out"
+        elif r["st"] == 0:
+            h = lambda x: hashlib.sha256(bytes.fromhex(x)).hexdigest()
+            if r["kind"] == "tx" and (r["re"] != r["d"] or r["id"] != h(r["d"])):
+                bad = "accepted non-canonical transaction bytes: ID is not the hash of the accepted bytes"
+            elif r["id"] != h(r["re"]):
+                bad = "ID is not the hash of the encoding"
+            elif r["st2"] != 0 or r["id2"] != r["id"] or r["re2"] != r["re"]:
+                bad = "ID / encoding changes when the encoding is decoded and encoded again"
+        if bad:
+            f = dict(kind="input", key="c08:id:%s:spec" % r["kind"], what="%s ID: %s on %s" % (r["kind"], bad, json.dumps(r)[:500]),
+                     case=r)
+            f["spec_violated"] = True
+            f["theorem_or_correspondence"] = "C08 ID oracle (hashlib.sha256)"
+            ck.failures.append(f)
 
 
 def case_key(r):
@@ -102,7 +138,7 @@ def evaluate(ck, recs):
         rs = [r for r in recs if r["k"] == k]
         if not rs:
             continue
-        res = ck.coq_eval(IMPORTS, typ, fn, [mk(r) for r in rs], shard=1500, tag="c08" + k)
+        res = ck.coq_eval(IMPORTS, typ, fn, [mk(r) for r in rs], shard=SHARD.get(k, 1500), tag="c08" + k)
         if res is None:
             continue
         for r, code in zip(rs, res):
@@ -125,6 +161,7 @@ def evaluate(ck, recs):
                 f["theorem_or_correspondence"] = "Corr.C08.%s" % fn
                 ck.failures.append(f)
     ck.extra["skipped_nfc_undecided"] = ck.extra.get("skipped_nfc_undecided", 0) + skipped
+    check_ids(ck, recs)
 
 
 def nontrivial(ck, r):
@@ -134,12 +171,13 @@ def nontrivial(ck, r):
     elif r["k"] == "w":
         ck.nontrivial(("w", r["op"], r["fn"], r["out"][:16], len(r["out"])))
     else:
-        ck.nontrivial((r["k"], r.get("name"), r.get("st"), r.get("ec"), r.get("d", "")[:24], len(r.get("d", ""))))
+        ck.nontrivial((r["k"], r.get("name"), r.get("gen"), r.get("st"), r.get("ec"), (r.get("d") or r.get("in", ""))[:24],
+                       len(r.get("d") or r.get("in", ""))))
 
 
 def harness_args(ck):
     if ck.tier == "quick":
-        return ["-exh", "2", "-rand", "600", "-structs", "6", "-mut", "6", "-lisk32", "100"]
+        return ["-exh", "2", "-rand", "600", "-structs", "6", "-mut", "6", "-lisk32", "60"]
     return ["-exh", "3", "-rand", "6000", "-structs", "40", "-mut", "20", "-lisk32", "3000"]
 
 
